@@ -185,6 +185,18 @@ def check(chk):
     _send_all(chk, repo)
     _player_objects_not_shared(chk, repo)
     _bonus_starts_from_zero(chk, repo)
+    # a counter's hit window is device state shared by all players (ignore_hits lives on the device): only its own exit delay ends it, so no
+    # method of a logic block wipes all delays (a player's disable inside the window would otherwise leave every later player's hits ignored)
+    LBC = "mpf/devices/logic_blocks.py"
+    n_w = 0
+    for cn_ in ("LogicBlock", "Counter", "Accrual", "Sequence"):
+        for m_ in repo.cls(LBC, cn_).methods.values():
+            for c_ in m_.calls():
+                if call_attr(c_) in ("clear", "remove", "reset", "add") and isinstance(c_.func, ast.Attribute) and src(c_.func.value) == "self.delay":
+                    n_w += 1
+                    chk.ob("PAIR-12", "%s.%s does not wipe all delays of the block" % (cn_, m_.name), call_attr(c_) != "clear", m_.where(c_), construct=m_.ident,
+                           detail="ignore_hits is reset only by the hit window's exit delay", text="logic block delays wiped in " + m_.name)
+    chk.ob("PAIR-12", "delay operations of the logic blocks examined (%d)" % n_w, n_w >= 4, LBC + ":1", nontrivial=False)
     _player_numbered_and_listed_in_one_step(chk, repo)
     _score_queue_adds(chk, repo)
     _remembered_selection(chk, repo, md, super_chain)
@@ -737,6 +749,7 @@ def battery():
     from sa.battery import M
     LBF = "mpf/devices/logic_blocks.py"
     return [
+        M("disable wipes the hit window's exit delay", "mpf/devices/logic_blocks.py", "        self.post_update_event()\n        self.delay.remove(\"timeout\")\n", "        self.post_update_event()\n        self.delay.clear()\n", "PAIR-12"),
         M("player listed only after player_adding has cleared", "mpf/modes/game/code/game.py", "        self.player_list.append(player)\n", "", "NUM-11"),
         M("bonus total zeroed only when a run finishes", "mpf/modes/bonus/code/bonus.py", "        self.bonus_score = 0\n        self.bonus_iterator = iter(self.bonus_entries)", "        self.bonus_iterator = iter(self.bonus_entries)", "BONUS-11"),
         M("per-player randomizer is a shallow copy of a shared one", "mpf/config_players/random_event_player.py", "                self.machine.game.player[key] = Randomizer(\n                    settings['events'], self.machine, template_type=\"event\")", "                import copy\n                self.machine.game.player[key] = copy.copy(self._machine_wide_dict.setdefault(key, Randomizer(\n                    settings['events'], self.machine, template_type=\"event\")))", "FRESH-11"),
